@@ -240,12 +240,48 @@ def r10f_no_short_circuit(ctx):
                 continue
             n += 1
             key = "R10f|%s|%s" % (g.id, m)
-            if m in ("for_each", "for_each_with", "for_each_init", "collect", "map", "filter", "count", "sum"):
+            # rayon's short-circuiting operations (its documentation marks them): the try_* family, the find / position /
+            # any / all searches, while_some, the *_any takes and skips, panic_fuse, and collect into Result / Option
+            short = bool(re.match(r"try_|find_|position_|any$|all$|while_some$|take_any|skip_any|panic_fuse$|(par_)?(r)?chunks_exact", m)) or \
+                (m in ("collect", "collect_into_vec", "from_par_iter") and
+                 re.search(r"\b(Result|Option)<", " ".join(c.get("targs", [])[1:2] or c.get("targs", []))) is not None and
+                 re.match(r"(std|core)::(result::Result|option::Option)<", (c.get("targs", ["", ""]) + [""])[1] or "") is not None)
+            if not short:
                 r.ok(sample={"parallel_consumer": m})
             else:
                 r.violate(key, "parallel consumer `%s` at %s can stop early (short-circuit): files after the first failure are not analysed" % (
                     m, ctx.bin.span_str(c["span"])))
     r.floor("parallel consumers in the scan", n, 1)
+    # a closure that is handed a BATCH of files loops over it: that loop is left only when the batch is exhausted (a `return`
+    # on the first unreadable file skips the rest of its batch)
+    from .r1e import natural_loops, _iterator_driven, _skip_goto
+    for g in [h for h in ctx.bin.real_fns() if h.root == f.id and h.kind == "closure"]:
+        site = ctx.bin.closure_sites().get(g.id)
+        if site is None:
+            continue
+        handed_to_rayon = any(any(cid == g.id for cid, _l in c.get("clos", [])) and ("rayon" in (c.get("fn") or "") or "rayon" in (c.get("res") or ""))
+                              for h in ctx.bin.real_fns() if h.root == f.id for _bb, c in h.calls())
+        if not handed_to_rayon:
+            continue
+        for hd, latches, body in natural_loops(g):
+            if not _iterator_driven(g, hd, body):
+                continue
+            hb = _skip_goto(g, hd)
+            nxt = g.blocks[hb]["t"][1].get("target") if g.blocks[hb]["t"][0] == "call" else None
+            early = []
+            for b in sorted(body):
+                if b == nxt or b == hb:
+                    continue  # the None edge of next(): the batch is exhausted
+                for s2 in g.succs(b):
+                    if s2 not in body:
+                        early.append(b)
+            key = "R10f|%s|batch loop left early" % g.id
+            if early:
+                r.violate(key, "the loop over a batch of files in the parallel phase (%s) can be left before the batch is exhausted "
+                               "(return / break at %s): the remaining files of that batch are not analysed" % (
+                                   g.id, ctx.bin.span_str(g.blocks[early[0]]["t"][1]["span"]) if g.blocks[early[0]]["t"][0] == "call" else "block %d" % early[0]))
+            else:
+                r.ok(sample={"batch_loop": g.id.split("::")[-1], "left_only_when_exhausted": True})
     return r
 
 
@@ -370,11 +406,18 @@ def r10e_walkers(ctx):
         r.anchor_missing("edge extractors", "import extractors: %d, pytest_plugins extractors: %d" % (len(imp_x), len(plg_x)))
         return r
     walkers = []
+    entry = _db(ctx).analysis_entry()
     for f in crate.real_fns():
         if f.kind not in ("method", "fn") or f.id in imp_x or f.id in plg_x:
             continue
-        # a walker follows edges: it calls an extractor itself (functions further up merely call the walker)
-        if any(c.get("res") in imp_x or c.get("res") in plg_x for g in crate.real_fns() if g.root == f.id for _b, c in g.calls()):
+        # a walker follows edges: it calls an extractor itself (functions further up merely call the walker) AND it walks the
+        # graph: it threads a visited set of paths (the import-closure computation) or leads to the analysis of the modules it
+        # finds (the scan).  A wrapper around an extractor or a query that lists the direct references of one file walks nothing.
+        if not any(c.get("res") in imp_x or c.get("res") in plg_x for g in crate.real_fns() if g.root == f.id for _b, c in g.calls()):
+            continue
+        threads_visited = any("HashSet<std::path::PathBuf>" in f.local_ty(i) and f.local_ty(i).startswith("&mut") for i in range(1, f.argc + 1))
+        analyses = entry is not None and entry.id in cg.reach([f.id], include_spawn=True)
+        if threads_visited or analyses:
             walkers.append(f)
     for f in walkers:
         reach = cg.reach([f.id])
@@ -574,11 +617,15 @@ def r10j_filter_sees_recorded_module(ctx):
     from .r1e import _root
     crate = ctx.bin
     n = 0
+    # the module string of the import record: its only String field (found by type, whatever it is called)
+    adt = next((a for pth, a in crate.adts.items() if pth.endswith("::FixtureImport")), None)
+    sfields = [x["name"] for x in adt["variants"][0]["fields"] if x["ty"] == "std::string::String"] if adt else []
+    mfield = sfields[0] if len(sfields) == 1 else "module_path"
     for f in crate.real_fns():
         recs = []
         for bb, si, pl, rv, sp in f.assigns():
-            if rv[0] == "agg" and rv[1][0] == "adt" and rv[1][1].endswith("::FixtureImport") and "module_path" in rv[1][3]:
-                o = rv[2][rv[1][3].index("module_path")]
+            if rv[0] == "agg" and rv[1][0] == "adt" and rv[1][1].endswith("::FixtureImport") and mfield in rv[1][3]:
+                o = rv[2][rv[1][3].index(mfield)]
                 L = _root(f, o)
                 if L is not None:
                     recs.append((bb, si, L))
@@ -784,24 +831,36 @@ def r10l_skip_predicate_exact(ctx):
             r.ok(sample={"ignore_predicate": f.id.split("::")[-1], "table_size": len(lits)})
         preds.add(f.id)
     r.floor("directory-ignore predicates", n, 1)
-    # who may consult it: only the workspace walk, where names are components of root-relative paths
-    walk = discovery_fn(ctx)
+    # where it is consulted, names are single entry names or components of a root-relative path: a function family that
+    # consults the table never splits a path that is not the result of strip_prefix into components / ancestors
     m = 0
-    if walk is not None:
+    fams = set()
+    for g in crate.real_fns():
+        for bb, c in g.calls():
+            if c.get("res") in preds or any((op_const(a) or {}).get("res") in preds for a in c["args"] if isinstance(a, list)):
+                if g.root not in preds:
+                    fams.add(g.root)
+                    m += 1
+    for root in sorted(fams):
+        bad = None
         for g in crate.real_fns():
+            if g.root != root:
+                continue
             for bb, c in g.calls():
-                used = c.get("res") in preds or any((op_const(a) or {}).get("res") in preds for a in c["args"] if isinstance(a, list))
-                if not used:
+                res = c.get("res") or ""
+                if c["span"][4].startswith("macro:"):
                     continue
-                m += 1
-                if g.root == walk.id or g.root in preds:
-                    r.ok()
-                else:
-                    r.violate("R10l|%s|ignore predicate outside the walk" % g.root,
-                              "%s consults the directory-ignore table at %s: outside the workspace walk paths are absolute, so an "
-                              "ancestor of the workspace named like an ignored directory (`build`, `env`, `vendor`, ...) changes the "
-                              "result" % (g.root, crate.span_str(c["span"])))
-        r.floor("consultations of the ignore predicate", m, 2)
+                if (res.endswith("std::path::Path::components") or res.endswith("std::path::Path::ancestors")) and \
+                        not _derives_from_call(g, c["args"][0], r"std::path::Path::strip_prefix$"):
+                    bad = bad or (res.split("::")[-1], crate.span_str(c["span"]))
+        key = "R10l|%s|ignore table applied to components of an absolute path" % root
+        if bad and key not in REVIEWED and ("R10a|%s|%s on a path not relative to the walk root" % (root, bad[0])) not in REVIEWED:
+            r.violate(key, "%s consults the directory-ignore table and splits a path that is not root-relative (%s at %s): an "
+                           "ancestor of the workspace named like an ignored directory (`build`, `env`, `vendor`, ...) changes the "
+                           "result" % (root, bad[0], bad[1]))
+        else:
+            r.ok(sample={"consults_ignore_table": root.split("::")[-1]})
+    r.floor("consultations of the ignore predicate", m, 2)
     return r
 
 
